@@ -406,10 +406,40 @@ func checkXRefGeneration(c *Ctx) {
 			n++
 			construct := fmt.Sprintf("xref line#%d generation", n)
 			var bad []string
-			for _, leaf := range valueLeaves(unwrapIface(elems[1])) {
-				if !strings.HasSuffix(fieldPath(unwrapIface(leaf)), "Generation") {
-					bad = append(bad, leaf.String())
+			var checkLeaf func(leaf ssa.Value, host *ssa.Function, d int)
+			checkLeaf = func(leaf ssa.Value, host *ssa.Function, d int) {
+				leaf = unwrapIface(leaf)
+				if strings.HasSuffix(fieldPath(leaf), "Generation") {
+					return
 				}
+				// a parameter of a formatting helper: the obligation moves to the helper's call sites
+				if prm, ok := leaf.(*ssa.Parameter); ok && d < 3 {
+					idx := paramIndex(host, prm)
+					callers := c.CG().In[host]
+					found := false
+					for _, caller := range callers {
+						eachInstr(caller, func(_ *ssa.BasicBlock, _ int, ci ssa.Instruction) {
+							cc, ok := ci.(*ssa.Call)
+							if !ok {
+								return
+							}
+							if f := staticCallee(cc); f == nil || unwrapSynthetic(f) != host || idx >= len(cc.Call.Args) {
+								return
+							}
+							found = true
+							for _, l2 := range valueLeaves(unwrapIface(cc.Call.Args[idx])) {
+								checkLeaf(l2, caller, d+1)
+							}
+						})
+					}
+					if found {
+						return
+					}
+				}
+				bad = append(bad, leaf.String())
+			}
+			for _, leaf := range valueLeaves(unwrapIface(elems[1])) {
+				checkLeaf(leaf, fn, 0)
 			}
 			if len(bad) == 0 {
 				r.OK("C22.R6", fid, construct, p.Pos(call.Pos()), "the generation column is the entry's Generation on every path", true)
